@@ -103,7 +103,7 @@ func (t *Tracker) Key(info *VM) string {
 			sb.WriteString("nil,")
 			continue
 		}
-		sb.WriteString(val.Snapshot(o) + ",")
+		sb.WriteString(val.StateKey(o) + ",")
 	}
 	return sb.String()
 }
@@ -133,7 +133,7 @@ func Globals(c *tengo.Compiled) string {
 			sb.WriteString(n + "=nil;")
 			continue
 		}
-		sb.WriteString(n + "=" + val.Snapshot(o) + ";")
+		sb.WriteString(n + "=" + val.StateKey(o) + ";")
 	}
 	return sb.String()
 }
